@@ -241,3 +241,111 @@ Theorem C05_nothing_lost :
             /\ (le_sync e = true -> shown g' i = frame_of (get_bar s' (le_bar e)))).
 Proof. exact (conj std_nothing_lost nothing_lost_multi). Qed.
 Print Assumptions C05_nothing_lost.
+
+(** REFUSED BY THE TARGET'S LIMITER = NOT LOST.  Call [o] is a draw request of member [b] (any call on
+    [b] except the silent list) - painted or REFUSED by the refresh limiter of the MultiProgress
+    target, the theorem does not care -; afterwards nothing touches [b] ([quiet]: no draw step,
+    no silent change, no remove of [b]) while the other members and the MultiProgress do anything,
+    including any number of further refused draws.  Then every MultiState::draw of a later call
+    [o2] (of another member or of the MultiProgress) composes, for the slot of [b] (if it is in
+    the composed ordering), [frame_of] the CURRENT state of [b], which is the state of the
+    request [o]: its position, length and texts are in the next painted frame. *)
+Theorem C05_nothing_lost_member_target_limiter :
+  forall (W H : N) (fails : N -> bool) (s0 : sys) (h1 h2 h3 : list (N * op))
+         (now now2 : N) (o o2 : op) (b i : N) (st : bar),
+  init_ok s0 -> mp_visible s0 ->
+  hist_ok W H fails s0 (h1 ++ (now, o) :: h2 ++ (now2, o2) :: h3) ->
+  let s1 := run W H fails s0 h1 in
+  let s1' := step_sys W H fails s1 now o in
+  let s2 := run W H fails s1' h2 in
+  let s2' := step_sys W H fails s2 now2 o2 in
+  op_draw s1 now o = Some (b, st) -> b_target (get_bar s1 b) = TMulti i ->
+  quiet W H fails s1' b (h2 ++ [(now2, o2)]) -> alive s2' b = true ->
+  forall m f ex, In (m, f, ex) (step_draws W H fails s2 now2 o2) -> In i (ms_order m) ->
+    member_lines (ms_members m) i = frame_of (get_bar s2' b)
+    /\ logic (get_bar s2' b) = logic st.
+Proof. exact nothing_lost_target_limiter. Qed.
+Print Assumptions C05_nothing_lost_member_target_limiter.
+
+(** REFUSED BY THE BAR'S OWN POSITION LIMITER = LOST UNTIL THE NEXT REACHING REQUEST (genuine, open
+    finding, class `multi-member-stale-after-throttled-position-update`; same behaviour of the real
+    code, docs/C05.md).  Witness: MultiProgress at 1 Hz, members A and B; eleven A.inc(1) at t = 5 ns:
+    the eleventh is refused by A's position limiter (burst 10, 1 ms) - a silent change, no draw
+    step; at t = 6 ns B.tick() is painted: the frame shows A's line for position 10 although A's
+    position is 11.  (A stand-alone bar renders its live state at paint time and is not affected.) *)
+Theorem C05_nothing_lost_member_refuted :
+  exists (s0 : sys) (h : list (N * op)) (now : N) (o : op),
+    init_ok s0 /\ mp_visible s0 /\ hist_ok 40 20 (fun _ => false) s0 (h ++ [(now, o)]) /\
+    let s := run 40 20 (fun _ => false) s0 h in
+    let s' := step_sys 40 20 (fun _ => false) s now o in
+    exists m f ex, In (m, f, ex) (step_draws 40 20 (fun _ => false) s now o)
+      /\ ms_attempt 40 m f ex now = true
+      /\ alive s' 0 = true /\ b_target (get_bar s' 0) = TMulti 0 /\ In 0 (ms_order m)
+      /\ silent_change (run 40 20 (fun _ => false) s0 (firstn 12 h)) 5 (OInc 0 1) 0 = true
+      /\ member_lines (ms_members m) 0 <> frame_of (get_bar s' 0).
+Proof. exact multi_stale_refuted. Qed.
+Print Assumptions C05_nothing_lost_member_refuted.
+
+(** the positive bound for that class: what a frame shows for a member is its state at its most
+    recent REACHING request ([lg_last], second conjunct of C05_nothing_lost), and an
+    inc / dec / set_position made at least AP_INTERVAL_NS = 1 ms after the instant [ap_prev] of the
+    bar's position limiter (its last reaching update or reset, on the 1 ms grid) is a reaching
+    request carrying the new position: by C02_draw_step_current / the theorem above its stored
+    lines are fresh again.  ([now - ap_start < 2^64]: the bar is younger than 584 years.) *)
+Theorem C05_member_position_reaches : forall (x : bar) (f : N -> N) (now : N),
+  ap_start (b_ap x) <= now -> now - ap_start (b_ap x) < U64 ->
+  ap_prev (b_ap x) + IndGen.Constants.AP_INTERVAL_NS <= now - ap_start (b_ap x) ->
+  exists st, pos_draw x f now = Some st /\ b_pos st = f (b_pos x) /\ b_len st = b_len x /\ b_msg st = b_msg x.
+Proof. exact pos_draw_reaches. Qed.
+Print Assumptions C05_member_position_reaches.
+
+(* ------------------------------------------------------------------ non-vacuity (members) *)
+Definition c5_bar (c : N) : bar :=
+  new_bar (Some 100) FAndLeave [PLit [c; 58]; PPos; PLit [47]; PLen; PLit [32]; PMsg] THidden 0.
+(** members A, B, C of a MultiProgress on a 1 Hz terminal target *)
+Definition c5_s0 : sys := mksys [c5_bar 65; c5_bar 66; c5_bar 67] (new_ms (TTerm (new_ttarget (Some 1) 0))) 0.
+(** 20 ticks of A drain the refresh limiter *)
+Definition c5_h1 : list (N * op) :=
+  [(0, OInsert BEnd 0); (0, OInsert BEnd 1); (0, OInsert BEnd 2)]
+  ++ map (fun k => (k, OTick 0)) [1;2;3;4;5;6;7;8;9;10;11;12;13;14;15;16;17;18;19;20].
+(** the request of A that is refused: set_message("two") after set_length(200), set_position(50) *)
+Definition c5_o : N * op := (102, OSetMsg 0 [116;119;111]).
+(** meanwhile C is updated (refused as well); then, a second later, B.set_message("go") is painted *)
+Definition c5_h2 : list (N * op) := [(103, OSetMsg 2 [99]); (104, OTick 2)].
+Definition c5_o2 : N * op := (1000000100, OSetMsg 1 [103;111]).
+Definition c5_nf : N -> bool := fun _ => false.
+Definition c5_pre : list (N * op) := c5_h1 ++ [(100, OSetLen 0 200); (101, OSetPos 0 50)].
+
+(** this is the witness of seeded defect C05-2 (seeded/C05-2/notes.md): the hypotheses hold, the
+    requests of A and C paint nothing, the frame triggered by B shows "A:50/200 two" *)
+Example C05_nothing_lost_member_example :
+  let s1 := run 40 20 c5_nf c5_s0 c5_pre in
+  let s1' := step_sys 40 20 c5_nf s1 (fst c5_o) (snd c5_o) in
+  let s2 := run 40 20 c5_nf s1' c5_h2 in
+  hist_ok 40 20 c5_nf c5_s0 (c5_pre ++ c5_o :: c5_h2 ++ c5_o2 :: [])
+  /\ (exists st, op_draw s1 (fst c5_o) (snd c5_o) = Some (0, st)) /\ b_target (get_bar s1 0) = TMulti 0
+  /\ quiet 40 20 c5_nf s1' 0 (c5_h2 ++ [c5_o2])
+  /\ step_out 40 20 c5_nf s1 (fst c5_o) (snd c5_o) = []
+  /\ step_out 40 20 c5_nf s1' 103 (OSetMsg 2 [99]) = []
+  /\ map (fun '(m, f, ex) => (ms_attempt 40 m f ex (fst c5_o2), map lt (ms_frame m ex)))
+         (step_draws 40 20 c5_nf s2 (fst c5_o2) (snd c5_o2))
+     = [(true, [[65;58;53;48;47;50;48;48;32;116;119;111]; [66;58;48;47;49;48;48;32;103;111];
+                [67;58;48;47;49;48;48;32;99]])].
+Proof.
+  vm_compute. repeat split; try discriminate; try (eexists; reflexivity).
+Qed.
+
+(** a frame triggered by the MultiProgress itself (println) shows the latest requested states too *)
+Example C05_nothing_lost_mp_trigger_example :
+  let s2 := run 40 20 c5_nf c5_s0 (c5_pre ++ c5_o :: c5_h2) in
+  map (fun '(m, f, ex) => (ms_attempt 40 m f ex 105, map lt (ms_frame m ex)))
+      (step_draws 40 20 c5_nf s2 105 (OMPrintln [120]))
+  = [(true, [[120]; [65;58;53;48;47;50;48;48;32;116;119;111]; [67;58;48;47;49;48;48;32;99]])].
+Proof. vm_compute. reflexivity. Qed.
+
+Example C05_member_position_reaches_example :
+  (* A's position limiter after eleven inc at 5 ns: prev = 0 (grid), capacity 0; an inc at 1 ms reaches *)
+  let x := get_bar (run 40 20 c5_nf c5_s0 ([(0, OInsert BEnd 0)] ++ map (fun _ => (5, OInc 0 1)) (seq 0 11))) 0 in
+  ap_cap (b_ap x) = 0 /\ ap_prev (b_ap x) = 0 /\ pos_draw x (fun p => wadd64 p 1) 999999 = None
+  /\ option_map b_pos (pos_draw x (fun p => wadd64 p 1) 1000000) = Some 12.
+Proof. vm_compute. repeat split. Qed.
